@@ -97,19 +97,26 @@ PROPS = {
                             "Meddly.Dump.check_sound_node", "Meddly.DD.apply2_unique", "Meddly.DD.apply1_unique",
                             "Meddly.DD.apply2_red_top", "Meddly.DD.mkNode_red",
                             "Meddly.EDD.canon", "Meddly.EDD.edge_value_is_min", "Meddly.EDD.mkNodeEV_eval", "Meddly.EDD.mkNodeEV_red",
-                            "Meddly.EDump.check_sound", "Meddly.EDump.unfold_inj", "Meddly.EDump.check_canon", "Meddly.EDump.evalFast_eq"],
+                            "Meddly.EDump.check_sound", "Meddly.EDump.unfold_inj", "Meddly.EDump.check_canon", "Meddly.EDump.evalFast_eq",
+                            "Meddly.HashStream.push2_eq", "Meddly.HashStream.hash_of_sequence", "Meddly.HashStream.hash_agree",
+                            "Meddly.UniqueTable.ut_inv", "Meddly.UniqueTable.ut_find_spec", "Meddly.UniqueTable.ut_refines_set",
+                            "Meddly.UniqueTable.no_duplicate_contents", "Meddly.UniqueTable.no_duplicate_contents_real",
+                            "Meddly.UniqueTable.dump_distinctOK"],
         "quick": [fam("canon")],
         "thorough": [fam("canon", "asan")],
         "leanchecker": ["MeddlyModel.Core.Canon", "MeddlyModel.Core.Dump"],
         "level_text": "DD.canon: two reduced trees (fully / quasi / identity rule, any domain with sizes >= 2, any terminal type) denote the same function iff they are the same tree; Dump.check_sound + Dump.unfold_inj: a dump of the real node store accepted by the verified checker unfolds injectively into reduced trees, so in THAT real state every two edges are equal iff they denote the same function (all assignments, not the sampled ones); mkNode_red/apply*_red: the model's createReducedNode and apply keep the reduced form. Tie: every quiescent state of random histories is dumped and certified; the same function is built along 5 different paths (minterm orders, op chains, copies through other forests, after GC and handle reuse) and the observed == partition must equal the partition by evaluation table.",
         "level_note": "Proved for multi-terminal forests (DD.canon) and for EV+ forests (EDD.canon: normalised edge values, value of a reduced edge = minimum of its denotation; EDump.check_sound for dumps); EV* (real, multiplicative) forests are covered by the structural recount, the == partition and evaluation only. Real-valued comparisons in the library are approximate (1e-6 relative): generators stay on an exactness-safe grid; rounding coincidences are not modelled. The unique table's hashing is observed only through its effect (duplicates in the dump).",
         "technique": "Lean 4 proof (canonical form uniqueness by induction on positions) + verified certificate checker run on dumps of the real forest + differential build-path comparison",
-        "partial": ["EV* normal form not proved (floating point; checked differentially)", "hash_agree / ut_find_spec not modelled", "EV+ edge arithmetic over unbounded Int (no 64-bit wrap)"],
+        "partial": ["EV* normal form not proved (floating point; checked differentially)", "HashStream / UniqueTable are hand-written models of hash_stream.h / unique_table.cc (hash values cross-checked against the real header by examples; tied at run time by the harness: both views and the packed node hash alike and the unique table finds every stored node)", "EV+ edge arithmetic over unbounded Int (no 64-bit wrap)"],
     },
     "C02": {
         "title": "Every stored node obeys the reduction rule",
         "theorems": CORE + ["Meddly.Dump.check_sound_node", "Meddly.Dump.red_of_node", "Meddly.DD.Red_WFTree",
-                            "Meddly.EDump.check_sound", "Meddly.EDump.check_sound_node", "Meddly.EDump.unfold_inj"],
+                            "Meddly.EDump.check_sound", "Meddly.EDump.check_sound_node", "Meddly.EDump.unfold_inj",
+                            "Meddly.Codec.C02_views_agree", "Meddly.Codec.C02_hash_identical", "Meddly.Codec.C02_duplicates",
+                            "Meddly.Codec.isSingleton_truth", "Meddly.Codec.unpack_pack_full", "Meddly.Codec.unpack_pack_sparse",
+                            "Meddly.HashStream.hash_agree"],
         "quick": [fam("canon"), fam("setops")],
         "thorough": [fam("canon", "asan"), fam("setops", "asan")],
         "leanchecker": ["MeddlyModel.Core.Dump"],
@@ -121,13 +128,16 @@ PROPS = {
     "C12": {
         "title": "Results do not depend on storage, memory-manager or deletion policy",
         "theorems": CORE + APPLY + ["Meddly.MemMan.live_contents_untouched", "Meddly.MemMan.tiling_refines_alloc",
-                                    "Meddly.MemMan.freelist_refines_alloc", "Meddly.MemMan.alloc_no_overlap"],
+                                    "Meddly.MemMan.freelist_refines_alloc", "Meddly.MemMan.alloc_no_overlap",
+                                    "Meddly.Codec.C12_codec_flag_indep", "Meddly.Codec.C12_pack_injective", "Meddly.Codec.pack_flag_indep",
+                                    "Meddly.Codec.areDuplicates_spec", "Meddly.Codec.layout_choice",
+                                    "Meddly.NodeLife.counts_exact", "Meddly.NodeLife.all_reclaimed", "Meddly.NodeLife.all_reclaimed_pessimistic"],
         "quick": [fam("policy")],
         "thorough": [fam("policy", "asan")],
         "level_text": "The model has no storage / memory-manager / deletion parameters at all: every result is the unique reduced tree of its denotation (DD.canon, apply*_unique), so whatever a policy does, an implementation that passes the canonical-form certificate and denotes the specified function has the same node count and structure. The policy-dependent components are each shown to refine a policy-free abstraction: every memory manager refines Alloc with live contents untouched (C18 theorems), node lifetime is policy-parametric (C06). Tie: one scripted allocation-heavy history (build / operate / release / cache clears) executed under the reference policy and 8 (quick) or all 36 (thorough) combinations of 3 storage flags x 4 managers x 3 deletion policies; every result table is compared with the specification oracle, per-edge node and edge counts with the reference configuration, and every configuration's forest passes the verified certificate checker and ends with zero nodes after release.",
-        "level_note": "The packed node layout (full / sparse / truncated) is observed only through the public full view; a policy_indep theorem over an explicit codec model is not written - independence is derived from canonicity plus the per-run certificates. Memory use and timing are outside the property.",
+        "level_note": "The packed node layout (truncated full / sparse, chosen by slot count) is modelled in Core/Codec.lean: decoding, lookups, the singleton and duplicate tests and the hash stream are proved independent of the storage flag (C12_codec_flag_indep); node lifetime is proved for both deletion policies (NodeLife). Memory use and timing are outside the property.",
         "technique": "Lean 4 proof (canonicity + allocator refinement) + cross-configuration differential run with verified certificates",
-        "partial": ["no explicit Lean codec model of full/sparse packing"],
+        "partial": ["Codec.lean is a hand-written model of storage/simple.cc (layout choice, four decode paths, duplicate test, singleton test, hash stream); tied at run time by the harness's view/hash/unique-table checks next to every dump, not by a translator"],
     },
     "C06": {
         "title": "Node lifetime: reference counts are exact, nothing dangles, nothing leaks",
@@ -191,7 +201,8 @@ PROPS = {
         "partial": ["convert2index compute table not modelled (exercised warm, differential)"],
     },
     "C10": {'title': 'Copying between forests preserves the function',
-     'theorems': ['Meddly.DD.canon',
+     'theorems': ['Meddly.EDD.copyMTtoEV_eval_top', 'Meddly.EDD.copyEVtoMT_eval_top', 'Meddly.EDD.copy_roundtrip', 'Meddly.EDD.copyMTtoEV_unique',
+                  'Meddly.DD.canon',
                   'Meddly.Dump.check_sound',
                   'Meddly.Dump.unfold_inj',
                   'Meddly.Dump.evalFast_eq_evalChild',
@@ -243,7 +254,9 @@ PROPS = {
                  'F-C10-1/2/3 (see NOTES / known_findings proposal): generator steers away, probes reproduce']},
     "C05": {
         "title": "Element-wise arithmetic, comparison, min/max and user-defined maps are pointwise",
-        "theorems": CORE + APPLY + ["Meddly.Arith." + t for t in [
+        "theorems": CORE + APPLY + ["Meddly.EDD.applyE2_eval_top", "Meddly.EDD.applyE2_red_top", "Meddly.EDD.applyE2_unique",
+                                    "Meddly.EDD.evplus_plus_eval", "Meddly.EDD.evplus_min_eval", "Meddly.EDD.evplus_max_eval",
+                                    "Meddly.EDD.evplus_minus_eval", "Meddly.EDD.evplus_minus_error_iff_denot"] + ["Meddly.Arith." + t for t in [
             "arith_eval", "arith_error", "arith_error_iff", "arith_red", "arith_unique",
             "unary_eval", "unary_red", "range_max_spec", "range_min_spec", "plus_zero_shortcut",
             "plus_zero_left", "minus_self", "minus_self_unsound", "minus_inf_right_invalid", "mult_zero_left",
